@@ -24,31 +24,101 @@ func after(what string) {
 	}
 }
 
-func LoadUint32(addr *uint32) uint32 { psync.Yield("ld"); r := *addr; after("ld"); return r }
-func LoadInt32(addr *int32) int32    { psync.Yield("ld"); return *addr }
-func LoadUint64(addr *uint64) uint64 { psync.Yield("ld"); r := *addr; after("ld"); return r }
-func LoadInt64(addr *int64) int64    { psync.Yield("ld"); return *addr }
+func LoadUint32(addr *uint32) uint32    { psync.Yield("ld"); r := *addr; after("ld"); return r }
+func LoadInt32(addr *int32) int32       { psync.Yield("ld"); r := *addr; after("ld"); return r }
+func LoadUint64(addr *uint64) uint64    { psync.Yield("ld"); r := *addr; after("ld"); return r }
+func LoadInt64(addr *int64) int64       { psync.Yield("ld"); r := *addr; after("ld"); return r }
 func LoadUintptr(addr *uintptr) uintptr { psync.Yield("ld"); r := *addr; after("ld"); return r }
-func LoadPointer(addr *unsafe.Pointer) unsafe.Pointer { psync.Yield("ld"); r := *addr; after("ld"); return r }
+func LoadPointer(addr *unsafe.Pointer) unsafe.Pointer {
+	psync.Yield("ld")
+	r := *addr
+	after("ld")
+	return r
+}
 
-func StoreUint32(addr *uint32, v uint32) { psync.Yield("st"); *addr = v; after("st") }
-func StoreInt32(addr *int32, v int32)    { psync.Yield("st"); *addr = v }
-func StoreUint64(addr *uint64, v uint64) { psync.Yield("st"); *addr = v; after("st") }
-func StoreInt64(addr *int64, v int64)    { psync.Yield("st"); *addr = v }
-func StoreUintptr(addr *uintptr, v uintptr) { psync.Yield("st"); *addr = v; after("st") }
+func StoreUint32(addr *uint32, v uint32)                  { psync.Yield("st"); *addr = v; after("st") }
+func StoreInt32(addr *int32, v int32)                     { psync.Yield("st"); *addr = v; after("st") }
+func StoreUint64(addr *uint64, v uint64)                  { psync.Yield("st"); *addr = v; after("st") }
+func StoreInt64(addr *int64, v int64)                     { psync.Yield("st"); *addr = v; after("st") }
+func StoreUintptr(addr *uintptr, v uintptr)               { psync.Yield("st"); *addr = v; after("st") }
 func StorePointer(addr *unsafe.Pointer, v unsafe.Pointer) { psync.Yield("st"); *addr = v; after("st") }
 
-func AddUint32(addr *uint32, d uint32) uint32 { psync.Yield("add"); *addr += d; r := *addr; after("add"); return r }
-func AddInt32(addr *int32, d int32) int32     { psync.Yield("add"); *addr += d; return *addr }
-func AddUint64(addr *uint64, d uint64) uint64 { psync.Yield("add"); *addr += d; r := *addr; after("add"); return r }
-func AddInt64(addr *int64, d int64) int64     { psync.Yield("add"); *addr += d; return *addr }
-func AddUintptr(addr *uintptr, d uintptr) uintptr { psync.Yield("add"); *addr += d; r := *addr; after("add"); return r }
+func AddUint32(addr *uint32, d uint32) uint32 {
+	psync.Yield("add")
+	*addr += d
+	r := *addr
+	after("add")
+	return r
+}
+func AddInt32(addr *int32, d int32) int32 {
+	psync.Yield("add")
+	*addr += d
+	r := *addr
+	after("add")
+	return r
+}
+func AddUint64(addr *uint64, d uint64) uint64 {
+	psync.Yield("add")
+	*addr += d
+	r := *addr
+	after("add")
+	return r
+}
+func AddInt64(addr *int64, d int64) int64 {
+	psync.Yield("add")
+	*addr += d
+	r := *addr
+	after("add")
+	return r
+}
+func AddUintptr(addr *uintptr, d uintptr) uintptr {
+	psync.Yield("add")
+	*addr += d
+	r := *addr
+	after("add")
+	return r
+}
 
-func SwapUint32(addr *uint32, v uint32) uint32 { psync.Yield("swap"); o := *addr; *addr = v; r := o; after("swap"); return r }
-func SwapInt32(addr *int32, v int32) int32     { psync.Yield("swap"); o := *addr; *addr = v; return o }
-func SwapUint64(addr *uint64, v uint64) uint64 { psync.Yield("swap"); o := *addr; *addr = v; r := o; after("swap"); return r }
-func SwapInt64(addr *int64, v int64) int64     { psync.Yield("swap"); o := *addr; *addr = v; return o }
-func SwapUintptr(addr *uintptr, v uintptr) uintptr { psync.Yield("swap"); o := *addr; *addr = v; r := o; after("swap"); return r }
+func SwapUint32(addr *uint32, v uint32) uint32 {
+	psync.Yield("swap")
+	o := *addr
+	*addr = v
+	r := o
+	after("swap")
+	return r
+}
+func SwapInt32(addr *int32, v int32) int32 {
+	psync.Yield("swap")
+	o := *addr
+	*addr = v
+	r := o
+	after("swap")
+	return r
+}
+func SwapUint64(addr *uint64, v uint64) uint64 {
+	psync.Yield("swap")
+	o := *addr
+	*addr = v
+	r := o
+	after("swap")
+	return r
+}
+func SwapInt64(addr *int64, v int64) int64 {
+	psync.Yield("swap")
+	o := *addr
+	*addr = v
+	r := o
+	after("swap")
+	return r
+}
+func SwapUintptr(addr *uintptr, v uintptr) uintptr {
+	psync.Yield("swap")
+	o := *addr
+	*addr = v
+	r := o
+	after("swap")
+	return r
+}
 func SwapPointer(addr *unsafe.Pointer, v unsafe.Pointer) unsafe.Pointer {
 	psync.Yield("swap")
 	o := *addr
@@ -122,35 +192,35 @@ func CompareAndSwapPointer(addr *unsafe.Pointer, old, new unsafe.Pointer) bool {
 
 type Int32 struct{ v int32 }
 
-func (x *Int32) Load() int32                        { return LoadInt32(&x.v) }
-func (x *Int32) Store(v int32)                      { StoreInt32(&x.v, v) }
-func (x *Int32) Swap(v int32) int32                 { return SwapInt32(&x.v, v) }
-func (x *Int32) CompareAndSwap(o, n int32) bool     { return CompareAndSwapInt32(&x.v, o, n) }
-func (x *Int32) Add(d int32) int32                  { return AddInt32(&x.v, d) }
+func (x *Int32) Load() int32                    { return LoadInt32(&x.v) }
+func (x *Int32) Store(v int32)                  { StoreInt32(&x.v, v) }
+func (x *Int32) Swap(v int32) int32             { return SwapInt32(&x.v, v) }
+func (x *Int32) CompareAndSwap(o, n int32) bool { return CompareAndSwapInt32(&x.v, o, n) }
+func (x *Int32) Add(d int32) int32              { return AddInt32(&x.v, d) }
 
 type Uint32 struct{ v uint32 }
 
-func (x *Uint32) Load() uint32                      { return LoadUint32(&x.v) }
-func (x *Uint32) Store(v uint32)                    { StoreUint32(&x.v, v) }
-func (x *Uint32) Swap(v uint32) uint32              { return SwapUint32(&x.v, v) }
-func (x *Uint32) CompareAndSwap(o, n uint32) bool   { return CompareAndSwapUint32(&x.v, o, n) }
-func (x *Uint32) Add(d uint32) uint32               { return AddUint32(&x.v, d) }
+func (x *Uint32) Load() uint32                    { return LoadUint32(&x.v) }
+func (x *Uint32) Store(v uint32)                  { StoreUint32(&x.v, v) }
+func (x *Uint32) Swap(v uint32) uint32            { return SwapUint32(&x.v, v) }
+func (x *Uint32) CompareAndSwap(o, n uint32) bool { return CompareAndSwapUint32(&x.v, o, n) }
+func (x *Uint32) Add(d uint32) uint32             { return AddUint32(&x.v, d) }
 
 type Int64 struct{ v int64 }
 
-func (x *Int64) Load() int64                        { return LoadInt64(&x.v) }
-func (x *Int64) Store(v int64)                      { StoreInt64(&x.v, v) }
-func (x *Int64) Swap(v int64) int64                 { return SwapInt64(&x.v, v) }
-func (x *Int64) CompareAndSwap(o, n int64) bool     { return CompareAndSwapInt64(&x.v, o, n) }
-func (x *Int64) Add(d int64) int64                  { return AddInt64(&x.v, d) }
+func (x *Int64) Load() int64                    { return LoadInt64(&x.v) }
+func (x *Int64) Store(v int64)                  { StoreInt64(&x.v, v) }
+func (x *Int64) Swap(v int64) int64             { return SwapInt64(&x.v, v) }
+func (x *Int64) CompareAndSwap(o, n int64) bool { return CompareAndSwapInt64(&x.v, o, n) }
+func (x *Int64) Add(d int64) int64              { return AddInt64(&x.v, d) }
 
 type Uint64 struct{ v uint64 }
 
-func (x *Uint64) Load() uint64                      { return LoadUint64(&x.v) }
-func (x *Uint64) Store(v uint64)                    { StoreUint64(&x.v, v) }
-func (x *Uint64) Swap(v uint64) uint64              { return SwapUint64(&x.v, v) }
-func (x *Uint64) CompareAndSwap(o, n uint64) bool   { return CompareAndSwapUint64(&x.v, o, n) }
-func (x *Uint64) Add(d uint64) uint64               { return AddUint64(&x.v, d) }
+func (x *Uint64) Load() uint64                    { return LoadUint64(&x.v) }
+func (x *Uint64) Store(v uint64)                  { StoreUint64(&x.v, v) }
+func (x *Uint64) Swap(v uint64) uint64            { return SwapUint64(&x.v, v) }
+func (x *Uint64) CompareAndSwap(o, n uint64) bool { return CompareAndSwapUint64(&x.v, o, n) }
+func (x *Uint64) Add(d uint64) uint64             { return AddUint64(&x.v, d) }
 
 type Uintptr struct{ v uintptr }
 
